@@ -46,6 +46,57 @@ def reparses (prog : NList) (keys : String) : Bool :=
     | .ok r => r.errors == 0 && !r.cont && dumpProgram false false r.program == dumpProgram false false prog
     | _ => false
 
+/-! ### why a tree is outside the fragment (coverage tags only) -/
+
+def kindName : Node → String
+  | .ident .. => "ident" | .intLit .. => "int" | .floatLit .. => "float" | .strLit .. => "string" | .boolean .. => "bool"
+  | .control .. => "control" | .comment .. => "comment" | .ret .. => "return" | .pre .. => "prefix" | .post .. => "postfix"
+  | .infix .. => "infix" | .forE .. => "for" | .ifE .. => "if" | .builtin .. => "builtin" | .func .. => "func"
+  | .call .. => "call" | .array .. => "array" | .index .. => "index" | .mapLit .. => "map" | .macroLit .. => "macro"
+
+def kids : Node → List (Option Node)
+  | .ret _ v => [v]
+  | .pre _ r => [r]
+  | .infix _ l r => [l, r]
+  | .forE _ c _ => [c]
+  | .ifE _ c _ _ => [c]
+  | .builtin _ ps => ps
+  | .func _ _ ps _ _ _ => ps
+  | .call _ f as => f :: as
+  | .array _ es => es
+  | .index _ l i => [l, i]
+  | .mapLit _ kvs => kvs
+  | .macroLit _ ps _ => ps
+  | _ => []
+
+def blocksOf : Node → List (List (Option Node))
+  | .forE _ _ b => b.toList
+  | .ifE _ _ a b => a.toList ++ b.toList
+  | .func _ _ _ b _ _ => b.toList
+  | .macroLit _ _ b => b.toList
+  | _ => []
+
+/-- the innermost constructs that keep a tree out of the fragment -/
+def whyN (c ap : Bool) : Nat → Node → List String
+  | 0, _ => ["deep"]
+  | fuel + 1, n =>
+    let ok := match n with
+      | .ret _ none => true
+      | .ret _ (some v) => fragN c ap v
+      | .infix _ (some l) none => fragN c ap l
+      | n => fragN c ap n
+    if ok then [] else
+    let sub := (kids n).flatMap (fun k => match k with | some k => whyN c ap fuel k | none => ["nil"]) ++
+      (blocksOf n).flatMap (fun b => b.flatMap fun k => match k with | some k => whyN c ap fuel k | none => ["nil"])
+    if sub.isEmpty then [kindName n ++ (match n with
+      | .infix t _ (some r) => if sameAssociativeOperator t r then ":repeated-associative-operator" else ""
+      | .index t _ i => if t.type == .DOT && isDotDot i then ":dotdot-after-dot" else ""
+      | _ => "")] else sub
+
+def whyProg (c ap : Bool) (prog : NList) : List String :=
+  let r := prog.flatMap fun k => match k with | some k => whyN c ap 64 k | none => ["nil"]
+  (if r.isEmpty then ["statement-start"] else r).eraseDups
+
 def runCase (inp obs : String) : CaseResult :=
   let impl := parseFields obs
   if (impl.get "F.toks").isNone then CaseResult.badLine else
@@ -72,6 +123,8 @@ def runCase (inp obs : String) : CaseResult :=
       let anyIn := per.any fun (_, inFrag, _, _) => inFrag
       { model := modelStr, agree := modelStr == obs, stmtModel := sm, stmtImpl := si,
         tags := (per.map fun (k, inFrag, _, _) => (if inFrag then "in-fragment-" else "outside-") ++ k) ++
+                (if fragProg true false prog then [] else (whyProg true false prog).map ("outside-c:" ++ ·)) ++
+                (if fragProg false false prog || !fragProg true false prog then [] else ["outside-n:statement-starts-with-prefix-operator"]) ++
                 (if prog.length > 1 then ["multi-statement"] else []) ++ ParseSuite.topTags r,
         nontrivial := anyIn && !prog.isEmpty }
 
